@@ -49,8 +49,11 @@ static rc::Gen<std::vector<uint8_t>> tape_gen() {
        {1, gen::just<uint8_t>(0xff)},
        {1, gen::map(gen::resize(kNominalSize, gen::inRange<int>(0, 33)),
                     [](int v) { return (uint8_t)v; })}});
-  return gen::withSize([byte](int size) {
-    int lo = 8, hi = 24 + size * 6;
+  int scale = 6;
+  if (const char *e = getenv("VERIF_TAPE_SCALE"))
+    scale = atoi(e) > 0 ? atoi(e) : 6;
+  return gen::withSize([byte, scale](int size) {
+    int lo = 8, hi = 24 + size * scale;
     return gen::mapcat(gen::resize(kNominalSize, gen::inRange<int>(lo, hi + 1)),
                        [byte](int len) {
                          return gen::container<std::vector<uint8_t>>(len, byte);
